@@ -361,13 +361,20 @@ func shrink(c *Case, key string, in input, dir string) *Case {
 	if at < 0 {
 		return c
 	}
-	cur.Steps = append([]Step(nil), cur.Steps[:at+1]...)
-	for i := len(cur.Steps) - 2; i >= 0; i-- {
+	tail := 1 // steps kept after the blamed one: an invalid output shows when the next step reads it
+	if !strings.Contains(key, "/class=invalid-output/") {
+		tail = 0
+	}
+	cur.Steps = append([]Step(nil), cur.Steps[:min(at+1+tail, len(cur.Steps))]...)
+	for i := len(cur.Steps) - 2 - tail; i >= 0; i-- {
 		cand := cur
 		cand.Steps = append(append([]Step(nil), cur.Steps[:i]...), cur.Steps[i+1:]...)
-		if firesAt(&cand) == len(cand.Steps)-1 {
+		if firesAt(&cand) == len(cand.Steps)-1-tail {
 			cur = cand
 		}
+	}
+	if tail > 0 {
+		return &cur
 	}
 	// single-page selection for the last step, if that still fires
 	last := cur.Steps[len(cur.Steps)-1]
@@ -423,14 +430,14 @@ func main() {
 			return
 		}
 
-		nGen := t.Pick(1500, 15000)
-		nCorpus := t.Pick(120, 1200)
+		nGen := t.Pick(1000, 10000)
+		nCorpus := t.Pick(100, 1000)
 		if len(corpusNames) == 0 {
 			nCorpus = 0
 		}
 		t.Rule(fmt.Sprintf("%d histories on generated documents (pdfgen: 2..30 pages, page tree depth 1..4, fan-out 1..6, MediaBox/CropBox/Rotate/Resources partly on intermediate nodes, unique marker and media box per page, "+
 			"1..3 content streams per page, random file structure) and %d on corpus files %v (initial model = pdfstrict's reading). A history is 1..8 steps drawn from insert-before/insert-after (page dimensions or nil), remove, "+
-			"rotate +-90/180/270, trim, collect, boxes add (rect / 1..4 margins incl. negative / percent / anchored dim / assignments), boxes remove, crop; selections are random 1..3-term expressions (1..4 for collect) over all "+
+			"rotate +-90/180/270, trim, collect, boxes add (rect / 1..4 margins incl. negative / percent / assignments), boxes remove, crop (rect / margins / percent / anchored dim); selections are random 1..3-term expressions (1..4 for collect) over all "+
 			"documented term shapes without page number 0, kept only when every documented reading agrees, 10%% of the non-structural steps without selection (= all pages). conf.Optimize is drawn per history. "+
 			"After every step: page count, content hash sequence, effective /Rotate mod 360, effective Media/Crop/Trim/Bleed/Art box and presence of the fonts the content uses, for every page. "+
 			"A history is non-trivial when at least one step was executed and compared", nGen, nCorpus, corpusNames))
